@@ -26,7 +26,8 @@ pub(crate) fn mk_settings(machine: ZXMachine) -> RustzxSettings {
         #[cfg(feature = "sound")]
         sound_volume: 100,
         #[cfg(feature = "sound")]
-        sound_sample_rate: 8000,
+        // small default so that frame-end padding loops unroll; harnesses about real rates set it themselves
+        sound_sample_rate: 100,
         #[cfg(feature = "embedded-roms")]
         load_default_rom: false,
         #[cfg(feature = "autoload")]
@@ -226,15 +227,15 @@ fn c08_poke_reaches_display_copy() {
 // =============================================================================================
 // C16 — the result does not depend on how the host slices execution
 // =============================================================================================
-static mut SCRIPT: [usize; 5] = [0; 5];
-static mut SCRIPT_PC: [u16; 5] = [0; 5];
+static mut SCRIPT: [usize; 4] = [0; 4];
+static mut SCRIPT_PC: [u16; 4] = [0; 4];
 static mut SCRIPT_POS: usize = 0;
 
 /// Replacement for `Z80::emulate`: the i-th instruction of a fixed (symbolic) program takes
 /// SCRIPT[i] T-states and ends at PC SCRIPT_PC[i].
 fn scripted_cpu_step<B: rustzx_z80::Z80Bus>(_cpu: &mut Z80, bus: &mut B) {
     unsafe {
-        kani::assume(SCRIPT_POS < 5);
+        kani::assume(SCRIPT_POS < 4);
         let d = SCRIPT[SCRIPT_POS];
         let pc = SCRIPT_PC[SCRIPT_POS];
         SCRIPT_POS += 1;
@@ -247,7 +248,7 @@ fn scripted_cpu_step<B: rustzx_z80::Z80Bus>(_cpu: &mut Z80, bus: &mut B) {
 fn script_sum(k: usize) -> usize {
     let mut s = 0;
     let mut i = 0;
-    while i < 5 {
+    while i < 4 {
         if i < k {
             s += unsafe { SCRIPT[i] };
         }
@@ -256,21 +257,7 @@ fn script_sum(k: usize) -> usize {
     s
 }
 
-// @harness
-// @prop C16
-// @tier quick
-// @timeout 1500
-// @fn Emulator::emulate_frames (FrameCount(n), Max, breakpoint stop and resume); Emulator::set_speed; Emulator::set_debug_interface; ZXController::pc_callback; ZXController::wait_internal; ZXController::reset_frame_counter; ZXController::take_events
-// @sym machine, start frame time, a program of 5 instruction lengths (1..frame-1 T each) and end PCs, host slicing in {2 frames per call; 1 frame per call twice; maximum-speed mode with arbitrary stopwatch readings and time limit; 2 frames with a breakpoint address that may hit anywhere and a resume}, stopwatch readings
-// @assert whatever the slicing, after the host has driven the machine the emulated time is a function of the instructions executed only: clock == (start + sum of executed lengths) mod frame, frame ends counted == (start + sum) div frame; FrameCount(2) in one call and FrameCount(1) twice stop after the same instruction (the first that completes the second frame); a breakpoint stop loses nothing and the resume continues with the next instruction; max-speed mode stops only at a frame end
-// @bound 5 abstract instructions per query (paths needing more are cut by an assume), <= 2 frames
-// @stub Z80::emulate -> scripted step (length and PC from the symbolic program); ZXScreen::process_clocks -> no-op
-// @replay solver-only
-#[kani::proof]
-#[kani::unwind(12)]
-#[kani::stub(rustzx_z80::Z80::emulate, scripted_cpu_step)]
-#[kani::stub(crate::zx::video::screen::ZXScreen::process_clocks, ch::noop_screen_clocks)]
-fn c16_host_slicing_does_not_matter() {
+fn slicing_body(mode: u8) {
     let m = any_machine();
     let f = ch::spec_frame_len(m);
     let mut e = mk_emulator(m, FbCtx { wx: 0, wy: 0 });
@@ -279,7 +266,7 @@ fn c16_host_slicing_does_not_matter() {
     e.controller.frame_clocks = t0;
     unsafe {
         let mut i = 0;
-        while i < 5 {
+        while i < 4 {
             let d: usize = kani::any();
             kani::assume(d >= 1 && d < f);
             SCRIPT[i] = d;
@@ -289,8 +276,6 @@ fn c16_host_slicing_does_not_matter() {
         SCRIPT_POS = 0;
     }
     let limit = Duration::from_millis(kani::any::<u16>() as u64);
-    let mode: u8 = kani::any();
-    kani::assume(mode < 4);
     let mut frames_seen = 0usize;
     let mut stopped_at_frame_end = true;
     match mode {
@@ -354,9 +339,82 @@ fn c16_host_slicing_does_not_matter() {
     if mode == 2 {
         kani::assert(k >= 1 && (t0 + script_sum(k - 1)) / f < total / f, "c16.slice.max_mode_stops_at_a_frame_end");
     }
-    kani::cover!(mode == 1 && k == 5, "frame-by-frame, five instructions");
-    kani::cover!(mode == 0 && k == 4, "two frames per call");
-    kani::cover!(mode == 2 && frames_seen == 2, "max mode ran two frames");
-    kani::cover!(mode == 3 && !stopped_at_frame_end, "breakpoint in the last instruction");
-    kani::cover!(mode == 3 && stopped_at_frame_end && k == 5 && e.controller.debug_interface.is_none(), "breakpoint mid-way then resume to completion");
+    kani::cover!(mode != 1 || k == 4, "frame-by-frame, four instructions");
+    kani::cover!(mode != 0 || k == 3, "two frames per call");
+    kani::cover!(mode != 2 || frames_seen == 2, "max mode ran two frames");
+    kani::cover!(mode != 3 || !stopped_at_frame_end, "breakpoint in the last instruction");
+    kani::cover!(mode != 3 || (stopped_at_frame_end && k == 4 && e.controller.debug_interface.is_none()), "breakpoint mid-way then resume to completion");
 }
+
+// @harness
+// @prop C16
+// @tier quick
+// @timeout 900
+// @fn Emulator::emulate_frames (FrameCount(n), Max, breakpoint stop and resume); Emulator::set_speed; Emulator::set_debug_interface; ZXController::pc_callback; ZXController::wait_internal; ZXController::reset_frame_counter; ZXController::take_events
+// @sym machine, start frame time, a program of 4 instruction lengths (1..frame-1 T each) and end PCs, host slicing: 2 frames in one call, stopwatch readings
+// @assert whatever the slicing, after the host has driven the machine the emulated time is a function of the instructions executed only: clock == (start + sum of executed lengths) mod frame, frame ends counted == (start + sum) div frame; FrameCount(2) in one call and FrameCount(1) twice stop after the same instruction (the first that completes the second frame); a breakpoint stop loses nothing and the resume continues with the next instruction; max-speed mode stops only at a frame end
+// @bound 4 abstract instructions per query (paths needing more are cut by an assume), <= 2 frames
+// @stub Z80::emulate -> scripted step (length and PC from the symbolic program); ZXScreen::process_clocks -> no-op
+// @replay solver-only
+#[kani::proof]
+#[kani::unwind(12)]
+#[kani::stub(rustzx_z80::Z80::emulate, scripted_cpu_step)]
+#[kani::stub(crate::zx::video::screen::ZXScreen::process_clocks, ch::noop_screen_clocks)]
+fn c16_slicing_two_frames_per_call() {
+    slicing_body(0);
+}
+
+// @harness
+// @prop C16
+// @tier quick
+// @timeout 900
+// @fn Emulator::emulate_frames (FrameCount(n), Max, breakpoint stop and resume); Emulator::set_speed; Emulator::set_debug_interface; ZXController::pc_callback; ZXController::wait_internal; ZXController::reset_frame_counter; ZXController::take_events
+// @sym machine, start frame time, a program of 4 instruction lengths (1..frame-1 T each) and end PCs, host slicing: 1 frame per call, twice, stopwatch readings
+// @assert whatever the slicing, after the host has driven the machine the emulated time is a function of the instructions executed only: clock == (start + sum of executed lengths) mod frame, frame ends counted == (start + sum) div frame; FrameCount(2) in one call and FrameCount(1) twice stop after the same instruction (the first that completes the second frame); a breakpoint stop loses nothing and the resume continues with the next instruction; max-speed mode stops only at a frame end
+// @bound 4 abstract instructions per query (paths needing more are cut by an assume), <= 2 frames
+// @stub Z80::emulate -> scripted step (length and PC from the symbolic program); ZXScreen::process_clocks -> no-op
+// @replay solver-only
+#[kani::proof]
+#[kani::unwind(12)]
+#[kani::stub(rustzx_z80::Z80::emulate, scripted_cpu_step)]
+#[kani::stub(crate::zx::video::screen::ZXScreen::process_clocks, ch::noop_screen_clocks)]
+fn c16_slicing_frame_by_frame() {
+    slicing_body(1);
+}
+
+// @harness
+// @prop C16
+// @tier quick
+// @timeout 900
+// @fn Emulator::emulate_frames (FrameCount(n), Max, breakpoint stop and resume); Emulator::set_speed; Emulator::set_debug_interface; ZXController::pc_callback; ZXController::wait_internal; ZXController::reset_frame_counter; ZXController::take_events
+// @sym machine, start frame time, a program of 4 instruction lengths (1..frame-1 T each) and end PCs, host slicing: maximum-speed mode with arbitrary stopwatch readings and time limit, stopwatch readings
+// @assert whatever the slicing, after the host has driven the machine the emulated time is a function of the instructions executed only: clock == (start + sum of executed lengths) mod frame, frame ends counted == (start + sum) div frame; FrameCount(2) in one call and FrameCount(1) twice stop after the same instruction (the first that completes the second frame); a breakpoint stop loses nothing and the resume continues with the next instruction; max-speed mode stops only at a frame end
+// @bound 4 abstract instructions per query (paths needing more are cut by an assume), <= 2 frames
+// @stub Z80::emulate -> scripted step (length and PC from the symbolic program); ZXScreen::process_clocks -> no-op
+// @replay solver-only
+#[kani::proof]
+#[kani::unwind(12)]
+#[kani::stub(rustzx_z80::Z80::emulate, scripted_cpu_step)]
+#[kani::stub(crate::zx::video::screen::ZXScreen::process_clocks, ch::noop_screen_clocks)]
+fn c16_slicing_max_speed_mode() {
+    slicing_body(2);
+}
+
+// @harness
+// @prop C16
+// @tier quick
+// @timeout 900
+// @fn Emulator::emulate_frames (FrameCount(n), Max, breakpoint stop and resume); Emulator::set_speed; Emulator::set_debug_interface; ZXController::pc_callback; ZXController::wait_internal; ZXController::reset_frame_counter; ZXController::take_events
+// @sym machine, start frame time, a program of 4 instruction lengths (1..frame-1 T each) and end PCs, host slicing: 2 frames with a breakpoint that may hit after any instruction, then resume, stopwatch readings
+// @assert whatever the slicing, after the host has driven the machine the emulated time is a function of the instructions executed only: clock == (start + sum of executed lengths) mod frame, frame ends counted == (start + sum) div frame; FrameCount(2) in one call and FrameCount(1) twice stop after the same instruction (the first that completes the second frame); a breakpoint stop loses nothing and the resume continues with the next instruction; max-speed mode stops only at a frame end
+// @bound 4 abstract instructions per query (paths needing more are cut by an assume), <= 2 frames
+// @stub Z80::emulate -> scripted step (length and PC from the symbolic program); ZXScreen::process_clocks -> no-op
+// @replay solver-only
+#[kani::proof]
+#[kani::unwind(12)]
+#[kani::stub(rustzx_z80::Z80::emulate, scripted_cpu_step)]
+#[kani::stub(crate::zx::video::screen::ZXScreen::process_clocks, ch::noop_screen_clocks)]
+fn c16_slicing_breakpoint_and_resume() {
+    slicing_body(3);
+}
+
